@@ -206,10 +206,21 @@ def run(chk: Check) -> None:
            "(self._nxg[edge.source][edge.target])", 2)
     mem = [n for n in walk_no_nested(ek.node) if isinstance(n, ast.Compare) and len(n.ops) == 1
            and isinstance(n.ops[0], (ast.In, ast.NotIn))]
-    chk.ob("R11.2", "CFG._edge_key:membership-tests-positive", bool(mem) and all(
-        isinstance(n.ops[0], ast.In) for n in mem), ek.loc(),
+    fl_mem = Flow(ek.node)
+    key_rets = [r for r in walk_no_nested(ek.node) if isinstance(r, ast.Return) and r.value is not None
+                and not (isinstance(r.value, ast.Constant) and r.value.value is None)]
+    positive = bool(mem) and bool(key_rets)
+    for r in key_rets:
+        facts = fl_mem.facts_at(fl_mem.node_of(r))
+        for m in mem:
+            held = [v for (t, v) in facts if t is m]
+            # the key is returned only where the membership test came out as "is a member"
+            if not held or any(v != isinstance(m.ops[0], ast.In) for v in held):
+                positive = False
+    chk.ob("R11.2", "CFG._edge_key:membership-tests-positive", positive, ek.loc(),
         "_edge_key must search only when the source is in the graph, the target among its successors "
-        "and the edge datum has a label: %s" % [unparse(n) for n in mem], 2)
+        "and the edge datum has a label: a key is returned on a path where one of %s did not hold"
+        % [unparse(n) for n in mem], 2)
     fl_ek = Flow(ek.node)
     if cmps:
         eqtrue = fl_ek.branch(cmps[0], True) if id(cmps[0]) in fl_ek.by_ast else None
@@ -231,17 +242,29 @@ def run(chk: Check) -> None:
     chk.ob("R11.2", "CFG._edge_key:none-when-absent", none_default, ek.loc(),
            "_edge_key must return None when no matching edge exists", 1)
     # __contains__
-    rets = [r for r in walk_no_nested(con.node) if isinstance(r, ast.Return)]
     p = con.param_names()[1]
     ok = False
-    if len(rets) == 1 and isinstance(rets[0].value, ast.BoolOp) and isinstance(rets[0].value.op, ast.And):
-        vals = rets[0].value.values
-        has_inst = any(isinstance(v, ast.Call) and attr_path(v.func) == ("isinstance",)
-                       and (dotted(v.args[1]) or ("",))[-1] == "Edge" for v in vals)
-        has_key = any(isinstance(v, ast.Compare) and isinstance(v.ops[0], ast.IsNot)
-                      and isinstance(v.left, ast.Call) and attr_path(v.left.func) == (con.self_name, "_edge_key")
-                      and attr_path(v.left.args[0]) == (p,) for v in vals)
-        ok = has_inst and has_key
+    from ..summaries import Outside, Summary
+    try:
+        sm = Summary(con.node)
+        dnf = sm.truthy_dnf()
+        if len(dnf) == 1 and len(dnf[0]) == 2:
+            has_inst = has_key = False
+            for a_, op, b_ in sm.constraints(dnf[0]):
+                if op == "truthy" and isinstance(a_, ast.Call) and attr_path(a_.func) == ("isinstance",) \
+                        and len(a_.args) == 2 and attr_path(a_.args[0]) == (p,) \
+                        and (dotted(a_.args[1]) or ("",))[-1] == "Edge":
+                    has_inst = True
+                if op == "IsNot":
+                    sides = [a_, b_]
+                    call = [x for x in sides if isinstance(x, ast.Call)]
+                    none = [x for x in sides if isinstance(x, ast.Constant) and x.value is None]
+                    if call and none and attr_path(call[0].func) == (con.self_name, "_edge_key") \
+                            and len(call[0].args) == 1 and attr_path(call[0].args[0]) == (p,):
+                        has_key = True
+            ok = has_inst and has_key
+    except Outside:
+        ok = False
     chk.ob("R11.2", "CFG.__contains__", ok, con.loc(),
            "membership must be 'isinstance(x, Edge) and self._edge_key(x) is not None'", 2)
     # __len__ / __iter__ from the same edge view
